@@ -232,7 +232,9 @@ func deviceAccessToken(w http.ResponseWriter, r *http.Request, exchanger Exchang
 	if err != nil {
 		return err
 	}
-	if clientAuthenticated != IsConfidentialType(client) {
+	// the client must have authenticated exactly if it is registered with an authentication method:
+	// the application type says nothing about whether the client holds credentials
+	if clientAuthenticated != (client.AuthMethod() != oidc.AuthMethodNone) {
 		return oidc.ErrInvalidClient().WithParent(ErrNoClientCredentials).
 			WithDescription("confidential client requires authentication")
 	}
